@@ -318,8 +318,18 @@ func c09accept(c *an.Ctx) {
 		if !ok || !call.Call.IsInvoke() || call.Call.Method.Name() != "Temporary" {
 			return
 		}
-		for _, t := range an.BoolTests(call) {
-			tempTrue = append(tempTrue, t.True)
+		// the edges a test decides "Temporary() returned true" on: a direct test, or a test of a
+		// boolean it was and-ed into (`temporary := ok && te.Temporary(); if temporary`)
+		for _, b := range fn.Blocks {
+			for _, succ := range b.Succs {
+				e := an.Edge{From: b, To: succ}
+				fs := an.FactsOnEdge(e)
+				for _, f := range fs[len(an.FactsAt(b)):] {
+					if f.V == ssa.Value(call) && f.True && !an.EdgeIn(e, tempTrue) {
+						tempTrue = append(tempTrue, e)
+					}
+				}
+			}
 		}
 	})
 	if len(tempTrue) == 0 {
